@@ -625,8 +625,12 @@ def _run_stream_exchange_sync(
                 except Exception:
                     _logger.debug("on_cancel hook failed", exc_info=True)
                 resp_buf = BytesIO()
-                with new_ipc_stream(resp_buf, output_schema):
-                    pass
+                with new_ipc_stream(resp_buf, output_schema) as cancel_writer:
+                    # Client logs the hook emitted travel in the cancel
+                    # response, as they do on the other transports (there the
+                    # hook's context writes into the still-open output stream).
+                    cancel_sink.flush_contents(cancel_writer, output_schema)
+                cancel_sink.reset()
                 resp_buf.seek(0)
                 return resp_buf
 
